@@ -20,7 +20,10 @@ type vc26Gen struct {
 	t       *rapid.T
 	feats   map[string]bool
 	wantErr string // "" | "range" | "dup": the whole query must be rejected with that error
-	noWS    bool
+	// the text holds a token that is not in the grammar (0x10, 1_000, a positional id or conditional bound with a
+	// leading zero ...): the whole query must be rejected (any error)
+	syntaxErr bool
+	noWS      bool
 	// conditionals whose bound overflows int64 (a == MaxInt64 with '<' ...): parse must not yield a satisfiable range
 	overflowCond bool
 }
@@ -269,10 +272,23 @@ func (g *vc26Gen) intItem() (interface{}, string) {
 		txt = strconv.FormatInt(rapid.Int64().Draw(g.t, "i64"), 10)
 	case k == 11:
 		txt = strconv.FormatInt(rapid.SampledFrom([]int64{1 << 32, 1<<32 - 1, -(1 << 31), 1 << 53, 1<<63 - 2, -(1 << 62)}).Draw(g.t, "ipow"), 10)
-	case k == 12:
-		// leading zeros and -0 are in the grammar ([0-9]+)
-		txt = rapid.SampledFrom([]string{"007", "00", "-0", "-01", "0000000000000000000001"}).Draw(g.t, "izero")
+	case k >= 12 && k <= 14:
+		// other spellings of the same number: leading zeros and -0 are in the grammar ('-'? [0-9]+) and the value is
+		// the DECIMAL reading (010 is ten, 08 is eight)
+		digits := rapid.SampledFrom([]string{"0", "7", "8", "9", "10", "17", "20", "64", "77", "88", "99", "100", "777", "1000", "4096", "9223372036854775807"}).Draw(g.t, "izdigits")
+		if rapid.IntRange(0, 3).Draw(g.t, "izrand") == 0 {
+			digits = strconv.Itoa(rapid.IntRange(0, 99999).Draw(g.t, "izany"))
+		}
+		zeros := rapid.SampledFrom([]string{"0", "0", "00", "000", "00000000000000000000"}).Draw(g.t, "izeros")
+		sign := rapid.SampledFrom([]string{"", "", "-"}).Draw(g.t, "izsign")
+		txt = sign + zeros + digits
 		g.feat("int:leadingzero")
+	case k == 15 && !g.syntaxErr && rapid.IntRange(0, 2).Draw(g.t, "isyn") == 0:
+		// literals of other languages are not PQL: the number rule stops after the digits and nothing may follow a value
+		txt = rapid.SampledFrom([]string{"0x10", "0X1F", "0b1", "0o7", "1_000", "1e5", "0x", "-0x8", "1.5e3", "0_1", "1__0", "0b", "10x"}).Draw(g.t, "isyntax")
+		g.syntaxErr = true
+		g.feat("int:foreign-literal")
+		return nil, txt
 	default:
 		txt = strconv.FormatUint(uint64(rapid.IntRange(0, 1000000).Draw(g.t, "imed")), 10)
 	}
@@ -289,8 +305,8 @@ func (g *vc26Gen) intItem() (interface{}, string) {
 // a decimal literal: '-'? [0-9]+ '.' [0-9]*   or   '-'? '.' [0-9]+
 func (g *vc26Gen) floatItem() (interface{}, string) {
 	neg := rapid.SampledFrom([]string{"", "", "-"}).Draw(g.t, "fneg")
-	ip := rapid.SampledFrom([]string{"0", "1", "12", "007", "1000000000000000000000", "9223372036854775808", "123456789"}).Draw(g.t, "fint")
-	fp := rapid.SampledFrom([]string{"", "0", "5", "25", "000", "125", "1", "3333333333333333333", "0000001"}).Draw(g.t, "ffrac")
+	ip := rapid.SampledFrom([]string{"0", "1", "12", "007", "010", "08", "01", "00", "1000000000000000000000", "9223372036854775808", "123456789"}).Draw(g.t, "fint")
+	fp := rapid.SampledFrom([]string{"", "0", "5", "25", "50", "000", "125", "1", "3333333333333333333", "0000001", "010"}).Draw(g.t, "ffrac")
 	var txt string
 	if rapid.IntRange(0, 4).Draw(g.t, "fdot") == 0 && fp != "" {
 		txt = neg + "." + fp
@@ -497,6 +513,12 @@ func (g *vc26Gen) arg(c *Call, used map[string]bool, depth int, reservedOK bool)
 			g.wantErr = "range"
 			g.feat("int:outofrange")
 		}
+		if !g.syntaxErr && rapid.IntRange(0, 250).Draw(g.t, "cizero") == 0 {
+			// condint <- '-'? [1-9] [0-9]* / '0': no leading zeros, no -0
+			lotxt = rapid.SampledFrom([]string{"010", "00", "-0", "-07", "0x1", "08"}).Draw(g.t, "cizerotxt")
+			g.syntaxErr = true
+			g.feat("conditional:leadingzero-rejected")
+		}
 		hitxt := strconv.FormatInt(hi, 10)
 		if g.wantErr == "" && !vkit.Open("DP3") && rapid.IntRange(0, 80).Draw(g.t, "cioorhi") == 0 {
 			hitxt = rapid.SampledFrom([]string{"9223372036854775808", "-9223372036854775809", "99999999999999999999"}).Draw(g.t, "cioorhitxt")
@@ -563,6 +585,11 @@ func (g *vc26Gen) colOrRow() (interface{}, string) {
 			g.wantErr = "range"
 			g.feat("int:outofrange")
 			return nil, rapid.SampledFrom([]string{"9223372036854775808", "18446744073709551615", "18446744073709551616"}).Draw(g.t, "uoor")
+		case k == 2 && !g.syntaxErr && rapid.IntRange(0, 2).Draw(g.t, "uzero") == 0:
+			// uint <- [1-9] [0-9]* / '0': a positional id has exactly one spelling
+			g.syntaxErr = true
+			g.feat("pos:leadingzero-rejected")
+			return nil, rapid.SampledFrom([]string{"010", "00", "007", "08", "0x10", "-1", "1_0", "+1"}).Draw(g.t, "uzerotxt")
 		case k <= 3:
 			v := rapid.Int64Range(0, math.MaxInt64).Draw(g.t, "u64")
 			return v, strconv.FormatInt(v, 10)
